@@ -18,11 +18,12 @@ func init() {
 	Register(&PropDef{
 		ID:    "C18",
 		Title: "Inactivity and keep-alive monitors close exactly the dead connections",
-		Rule: "a real connection (UDP, DTLS shim, TCP, TLS shim) guarded by the real inactivity monitor / keep-alive wired through options.WithInactivityMonitor / WithKeepAlive; histories of {message received, pong for the current or a superseded ping, tick at time t} with spacings drawn relative to the period (exactly the period, +-1 ns, several ticks inside one period, late ticks, +300 s jump, stale now); " +
+		Rule: "a real connection (UDP, DTLS shim, TCP, TLS shim) guarded by the real inactivity monitor / keep-alive wired through options.WithInactivityMonitor / WithKeepAlive; histories of {message received, pong for the current or a superseded ping, tick at time t} with spacings drawn relative to the period (exactly the period, +-1 ns, several ticks inside one period, late ticks, +300 s jump, stale now); server side: several peers (answering / dead) on one real server with keep-alive; " +
 			"non-trivial = at least one tick found the connection inactive; distinct = distinct event-log hash",
 		Scenarios: []Scenario{
 			{Name: "S-MONITOR/plain", Weight: 1, Run: func(e *Env) { c18Run(e, false) }},
 			{Name: "S-MONITOR/keepalive", Weight: 2, Run: func(e *Env) { c18Run(e, true) }},
+			{Name: "S-MONITOR/server-keepalive", Weight: 1, Run: c18ServerRun},
 		},
 		Quick:    80000,
 		Thorough: 4000000,
@@ -30,7 +31,7 @@ func init() {
 			"keep-alive counts consecutive inactivity detections (a tick with now > last receive + period) since the last reset; the literal 'more than maxRetries pings unanswered' is never satisfied by any implementation that sends maxRetries pings",
 			"a pong for a superseded ping is accepted as either a reset or not (it is a received message; the statement does not say which wins)",
 			"the model's clock for the tick is the now handed to the tick; handlers return at once",
-			"client-side connections only in this scenario; the server-side tick paths (udp/server, pkg/connections) are exercised by C10's scenarios",
+			"S-MONITOR/server-keepalive: a real udp / dtls / tcp server with WithKeepAlive and 2-4 peers that either answer every ping at once or never: an answering peer is never closed, a dead one is closed after at least maxRetries pings of its own went unanswered and at the latest maxRetries+2 late ticks after the script ends",
 		},
 	})
 }
